@@ -11,7 +11,8 @@ META = {
                    'to GC::run (MIR liveness + backward slice of the roots argument). R03.3 marking recurses through arrays. R03.4 bitmap '
                    'typestate: the mark bitmap has exactly one bit per managed object whenever it is indexed or scanned, and the index '
                    'of an object is its position in the managed list (pointer-provenance check). R03.5 no &mut to a payload is live '
-                   'while an aliasing Object is read. R03.6 nothing is freed except by the collector or free_recursive of an untraced result.',
+                   'while an aliasing Object is read. R03.6 nothing is freed except by the collector or free_recursive of an untraced result.'
+                   ' R03.7 a &mut into a box is taken only by the constructor that has just allocated it or on the IndexSet path (reachable values stay unchanged, nothing is recycled).',
     'not_decided': ['that a particular heap graph survives (run-time reachability)', 'cyclic arrays in Display', 'cross-run lifetimes (C17)'],
 }
 GCN = 'gc::GC::'
@@ -87,6 +88,60 @@ def bitmap_state_check(F, fn, rep, rule, require_for):
     return problems, npaths
 
 
+def check_payload_writers(ctx, rep, rule):
+    """`stays allocated and unchanged`, `never observes a recycled object`: the content of a box changes only where the
+    language says so.  The functions of the object layer that hand out a `&mut` into a box (found by return type) are reached
+    (a) from other such accessors, (b) inside the object layer from a constructor, on the box it has just allocated, and
+    (c) outside it only from code that runs in the IndexSet arm of the dispatch loop (the in-place element assignment)."""
+    import re as _re
+    F = ctx.facts()
+    from rules import vmx as _vmx
+    dfn, header, swb, arms, body = _vmx.find_dispatch(F)
+    regions = {op: dfn.reachable(e, stop={header}) for op, e in arms.items()}
+
+    def is_acc(f):
+        return f.crate == 'lib' and f.path.startswith('object::') and _re.match(r"^&('\S+ )?mut ", f.local_ty(0)) is not None
+    accs = {f.path for f in F.all_fns if is_acc(f)}
+
+    def only_index_set(g, b, depth=0):
+        """the call site (g, block b) executes only as part of the IndexSet instruction"""
+        if g is dfn:
+            inarm = sorted(op for op, r in regions.items() if b in r)
+            return inarm == ['IndexSet'], 'in the %s arm' % '/'.join(inarm or ['(no)'])
+        if depth > 4:
+            return False, 'call chain too deep'
+        sites = F.callers_of(lambda p, q=g.path: p == q)
+        sites = [(h, hb, ht) for h, hb, ht in sites if h.crate == g.crate]
+        if not sites:
+            return False, 'reached from outside the dispatch loop (%s has no caller)' % g.path
+        for h, hb, ht in sites:
+            ok, why = only_index_set(h, hb, depth + 1)
+            if not ok:
+                return False, '%s <- %s' % (g.path, why)
+        return True, 'only from the IndexSet arm'
+    n = 0
+    for f in F.all_fns:
+        if f.crate != 'lib':
+            continue
+        for b, t in f.calls():
+            cn = callee_name(t)
+            if cn not in accs:
+                continue
+            n += 1
+            inst = '&mut into a box (%s)' % cn.split('::')[-1]
+            if f.path in accs:
+                rep.good(rule, f.path, inst, 'an accessor built on another accessor', span_loc(t['span']), nontrivial=False)
+            elif f.path.startswith('object::'):
+                v = sym(f, t['args'][0]) if t['args'] else None
+                s_ = str(v)
+                fresh = 'object::allocate' in s_ and 'object::Object::with_type' in s_
+                rep.ob(fresh, rule, f.path, inst, 'inside the object layer a box is written only by the constructor that has just allocated it: %s' % s_[:120], span_loc(t['span']))
+            else:
+                ok, why = only_index_set(f, b)
+                rep.ob(ok, rule, f.path, inst, 'the content of an existing box is changed only by the in-place element assignment; this site runs %s' % why, span_loc(t['span']))
+    rep.count('payload_mut_sites', n)
+
+
 def run(ctx, rep):
     F = ctx.facts()
     rep.rule('R03.1', 'registration: allocate <- from_* <- public constructors, each passing GC::trace on the created object')
@@ -95,6 +150,8 @@ def run(ctx, rep):
     rep.rule('R03.4', 'bitmap typestate and index provenance in the collector')
     rep.rule('R03.5', 'no aliasing &mut / & on one payload')
     rep.rule('R03.6', 'who frees: destroy <- Object::free <- {GC::sweep, free_recursive}; free_recursive unused inside the crate')
+    rep.rule('R03.7', 'unchanged / never recycled: a &mut into a box is taken only by the constructor that allocated it or on the IndexSet path')
+    check_payload_writers(ctx, rep, 'R03.7')
     # ---- R03.1 ---------------------------------------------------------------------------------
     alloc_callers = sorted({f.path for f, b, t in F.callers_of(lambda p: p == 'object::allocate')})
     priv = {'object::Float::from_f64', 'object::String::from_string', 'object::Array::from_vec'}
@@ -157,19 +214,7 @@ def run(ctx, rep):
         rep.ob(f.path == 'vm::VM::run', 'R03.2', f.path, 'collection point', 'collections are started only from the dispatch loop', span_loc(t['span']))
 
     # ---- R03.3 ---------------------------------------------------------------------------------
-    for name in ('mark', 'untrace'):
-        fn = F.fn(GCN + name)
-        rec = False
-        for p in AbsInt(F, fn, max_paths=5000).run():
-            vs = [c for c in p.constraints if c[0][0] == 'switch']
-            names = [c[1] for c in p.calls]
-            if GCN + name in names and any(n.endswith('as_vec_unchecked') or n.endswith('as_vec') for n in names):
-                # the recursive call sits inside the loop over the array's elements
-                rec = True
-        rep.ob(rec, 'R03.3', fn.path, 'array recursion', 'on arrays, %s visits every element (recursive call inside the element loop)' % name, fn.loc())
-        # the recursion is conditional on the tag being Array
-        tagtest = any(callee_name(t) == 'object::Object::tag' for b, t in fn.calls())
-        rep.ob(tagtest, 'R03.3', fn.path, 'array test', 'the element loop is guarded by a tag test', fn.loc())
+    check_array_recursion(ctx, rep, 'R03.3')
 
     # ---- R03.4 ---------------------------------------------------------------------------------
     runfn = F.fn(GCN + 'run')
@@ -231,18 +276,45 @@ def run(ctx, rep):
     c13.check_aliasing(ctx, rep, 'R03.5')
 
     # ---- R03.6 ---------------------------------------------------------------------------------
+    check_who_frees(ctx, rep, 'R03.6')
+
+
+def check_array_recursion(ctx, rep, rule, names=('mark', 'untrace')):
+    """mark / untrace visit everything reachable: on arrays they call themselves for every element"""
+    F = ctx.facts()
+    # ---- R03.3 ---------------------------------------------------------------------------------
+    for name in names:
+        fn = F.fn(GCN + name)
+        rec = False
+        for p in AbsInt(F, fn, max_paths=5000).run():
+            vs = [c for c in p.constraints if c[0][0] == 'switch']
+            names = [c[1] for c in p.calls]
+            if GCN + name in names and any(n.endswith('as_vec_unchecked') or n.endswith('as_vec') for n in names):
+                # the recursive call sits inside the loop over the array's elements
+                rec = True
+        rep.ob(rec, rule, fn.path, 'array recursion', 'on arrays, %s visits every element (recursive call inside the element loop)' % name, fn.loc())
+        # the recursion is conditional on the tag being Array
+        tagtest = any(callee_name(t) == 'object::Object::tag' for b, t in fn.calls())
+        rep.ob(tagtest, rule, fn.path, 'array test', 'the element loop is guarded by a tag test', fn.loc())
+
+
+
+def check_who_frees(ctx, rep, rule):
+    """memory goes back to the allocator only through the collector's sweep, or through free_recursive on a result the caller owns"""
+    F = ctx.facts()
+    # ---- R03.6 ---------------------------------------------------------------------------------
     destroyers = [d for d in ('object::Float::destroy', 'object::String::destroy', 'object::Array::destroy') if d in F.fns]
     for d in destroyers:
         cs = sorted({f.path for f, b, t in F.callers_of(lambda p, d=d: p == d)})
-        rep.ob(cs == ['object::Object::free'], 'R03.6', d, 'callers', 'only Object::free destroys boxes: %s' % cs, 'src/object.rs')
+        rep.ob(cs == ['object::Object::free'], rule, d, 'callers', 'only Object::free destroys boxes: %s' % cs, 'src/object.rs')
     # wherever the release is written: memory goes back to the allocator only in the destroy functions or in Object::free itself
     deallocs = sorted({f.path for f, b, t in F.callers_of(lambda p: p == 'alloc::alloc::dealloc') if f.crate == 'lib'})
-    rep.ob(bool(deallocs) and set(deallocs) <= set(destroyers) | {'object::Object::free'}, 'R03.6', 'alloc::alloc::dealloc', 'callers',
+    rep.ob(bool(deallocs) and set(deallocs) <= set(destroyers) | {'object::Object::free'}, rule, 'alloc::alloc::dealloc', 'callers',
            'boxes are deallocated only by the destroy functions / Object::free: %s' % deallocs, 'src/object.rs')
     cs = sorted({f.path for f, b, t in F.callers_of(lambda p: p == 'object::Object::free')})
-    rep.ob(set(cs) <= {GCN + 'sweep', 'object::Object::free_recursive'}, 'R03.6', 'object::Object::free', 'callers', 'only the sweep and free_recursive free objects: %s' % cs, 'src/object.rs')
+    rep.ob(set(cs) <= {GCN + 'sweep', 'object::Object::free_recursive'}, rule, 'object::Object::free', 'callers', 'only the sweep and free_recursive free objects: %s' % cs, 'src/object.rs')
     cs = sorted({f.path for f, b, t in F.callers_of(lambda p: p == 'object::Object::free_recursive')})
-    rep.ob(not cs, 'R03.6', 'object::Object::free_recursive', 'callers', 'free_recursive is for the caller of eval (untraced results); nothing in the crate calls it: %s' % cs, 'src/object.rs')
+    rep.ob(not cs, rule, 'object::Object::free_recursive', 'callers', 'free_recursive is for the caller of eval (untraced results); nothing in the crate calls it: %s' % cs, 'src/object.rs')
     for n_ in ('core::mem::forget', 'alloc::boxed::Box::<T>::leak', 'core::mem::manually_drop::ManuallyDrop::<T>::new'):
         cs = sorted({f.path for f, b, t in F.callers_of(lambda p, n_=n_: p == n_) if f.crate == 'lib'})
-        rep.ob(not cs, 'R03.6', n_, 'unused', 'no destructor suppression in the crate: %s' % cs, None)
+        rep.ob(not cs, rule, n_, 'unused', 'no destructor suppression in the crate: %s' % cs, None)
